@@ -4,8 +4,10 @@ D=$(readlink -f $1); P=$2; T=${3:-quick}
 cd /verif
 [ -z "$(git -C /repo status --porcelain)" ] || { echo "repo not clean"; exit 2; }
 git -C /repo apply $D/patch.diff || { echo "patch does not apply to /repo"; exit 2; }
+cp evidence/$P.json /tmp/try_seed.ev 2>/dev/null   # evidence must describe the unchanged tree: keep it
 ./check $P $T > /tmp/try_seed.out 2>&1; rc=$?
 git -C /repo checkout -- .
+cp /tmp/try_seed.ev evidence/$P.json 2>/dev/null
 echo "TRY $P $T rc=$rc violations=$(grep -c '^VIOLATION' /tmp/try_seed.out) drift=$(grep -c '^SPEC-DRIFT' /tmp/try_seed.out)"
 grep -A1 '^VIOLATION' /tmp/try_seed.out | grep what | head -3 | cut -c1-300
 grep '^SPEC-DRIFT' /tmp/try_seed.out | head -1 | cut -c1-400
